@@ -21,8 +21,8 @@ from vf import core
 STEP = 1.0009765625
 # Documented features that none of the shipped files exhibits: at most one of
 # them per file (probability of each), used wherever the file gives the
-# opportunity; its name is appended to the mechanism keys of missing items and
-# reader exceptions so that they do not hide each other.
+# opportunity; its name is appended to the mechanism keys of missing items,
+# unexpected items and exceptions so that they do not hide each other.
 #   nval      -- the optional NVAL dataset beside LOCALNAME in totaloutput
 #   nsurf1    -- NSURF = 1
 #   bothlocal -- LOCALNAME/LOCALVALUE and the localvalue group side by side
@@ -36,7 +36,6 @@ REACTIONS = ['Absorption', 'Diffusion', 'Fission', 'FissionSpectrum',
 LOCALS = ['Eigen value Minos', 'Eigen value Minaret', 'User_time_s',
           'sample_value1_unit1', 'RelativePower', 'Mino_RHO',
           'Pow_Mino_T0.055', 'SteadyState_keff', 'beta eff 2', 'rho_3']
-SCALARS = ('KEFF', 'KINF', 'MIGRATIONAREA')
 NOT_RESULTS = ('NSURF', 'NVAL', 'LOCALNAME', 'LOCALVALUE')
 
 
@@ -49,6 +48,29 @@ def _pad(names):
 
 def _i4(num):
     return np.array([num], dtype='i4')
+
+
+def _std(out, zone, name, iso=None):
+    '''The ``pick_standard_value`` call for one stored dataset.'''
+    kws = {'output': out, 'zone': zone, 'result_name': name}
+    if iso is not None:
+        kws['isotope'] = iso
+    return [('std', kws)]
+
+
+def _loc(out, zone, name, idx=None):
+    '''Picker calls for a local value: entry `idx` of LOCALVALUE, or (idx
+    None) the dataset `name` of the ``localvalue`` group of out[/zone].'''
+    if idx is None:
+        return [('user', {'output': out if zone is None else f'{out}/{zone}',
+                          'zone': 'localvalue', 'result_name': name})]
+    return [('user', {'output': out, 'zone': zone, 'result_name': name}),
+            ('index', {'output': out, 'zone': zone, 'result_index': idx,
+                       'name': name})]
+
+
+def _groups(ngr):
+    return [('groups', np.arange(ngr))]
 
 
 class _Truth:
@@ -71,6 +93,7 @@ class _Truth:
                       'aniso': False, 'surf': False, 'locals': ''}
 
     def nums(self, shape, dtype):
+        '''Fresh numbers, exactly representable in float32.'''
         size = int(np.prod(shape))
         vals = [((self.knt + i + 1) * STEP + 0.5) * self.scale
                 * (-1.0 if self.rng.random() < 0.1 else 1.0)
@@ -80,31 +103,28 @@ class _Truth:
         return np.array(vals, dtype=dtype).reshape(shape)
 
     def add(self, kind, arr, labels, shape, bins, picks):
+        '''`labels` = (output, zone, isotope, result_name) expected in the
+        browser, `shape` / `bins` as documented.'''
         self.items.append({'kind': kind, 'arr': arr, 'labels': labels,
                            'shape': shape, 'bins': bins, 'picks': picks})
 
     def fdt(self):
         return self.rng.choice(('f4', 'f8'))
 
-    def raretag(self):
+    def tag(self):
         return ''.join(f'-with-{tag}' for tag in sorted(self.rare))
 
 
-def _groups(ngr):
-    return [('groups', np.arange(ngr))]
-
-
-def _write_locals(grp, tru, labels, pick_out, zone):
-    '''Optional LOCALNAME / LOCALVALUE datasets and ``localvalue`` group.
-    `labels` = (output, zone) under which the reader must file them.'''
+def _write_locals(grp, tru, out, zone):
+    '''LOCALNAME / LOCALVALUE datasets and / or the ``localvalue`` group.'''
     rng = tru.rng
     mode = rng.choice(('scalars', 'group'))
     if tru.wish == 'bothlocal':
         mode = 'both'
         tru.rare.add('bothlocal')
     names = rng.sample(LOCALS, rng.randint(2, 5))
-    cut = len(names) if mode == 'scalars' else (
-        0 if mode == 'group' else rng.randint(1, len(names) - 1))
+    cut = {'scalars': len(names), 'group': 0}.get(
+        mode, rng.randint(1, len(names) - 1))
     tru.stats['locals'] = mode
     if cut:
         grp['LOCALNAME'] = _pad(names[:cut])
@@ -114,34 +134,27 @@ def _write_locals(grp, tru, labels, pick_out, zone):
             grp['NVAL'] = _i4(cut)
             tru.rare.add('nval')
         for i, nam in enumerate(names[:cut]):
-            tru.add('localvalue-scalar', vals[i:i + 1], labels + (None, nam),
-                    (), [],
-                    [('user', {'output': pick_out, 'zone': zone,
-                               'result_name': nam}),
-                     ('index', {'output': pick_out, 'zone': zone,
-                                'result_index': i, 'name': nam})])
+            tru.add('localvalue-scalar', vals[i:i + 1], (out, zone, None, nam),
+                    (), [], _loc(out, zone, nam, i))
     if cut < len(names):
         sub = grp.create_group('localvalue')
         sub['LOCALNAME'] = _pad(names[cut:])
-        out = pick_out if zone is None else f'{pick_out}/{zone}'
         for nam in names[cut:]:
             arr = tru.nums((rng.choice((1, 1, 2, 3, 6)),), 'f4')
             sub[nam] = arr
-            tru.add('localvalue-group', arr, labels + (None, nam), arr.shape,
-                    [], [('user', {'output': out, 'zone': 'localvalue',
-                                   'result_name': nam})])
+            tru.add('localvalue-group', arr, (out, zone, None, nam),
+                    arr.shape, [], _loc(out, zone, nam))
 
 
-def _write_rates(grp, tru, labels, ngr, macro):
+def _write_rates(grp, tru, out, zone, iso, ngr):
     '''Reaction rates of one isotope (or of ``macro``) with the anisotropy
     description used by the real files: ``info/nbAnisotropy`` for an isotope,
     ``info/<reaction>/nbAnisotropy`` for macro.'''
     rng = tru.rng
-    out, zone, iso = labels
-    reacs = rng.sample(REACTIONS, rng.randint(1, 4))
+    macro = iso == 'macro'
     iso_naniso = rng.randint(1, 3)
     info = None
-    for rea in reacs:
+    for rea in rng.sample(REACTIONS, rng.randint(1, 4)):
         naniso = rng.randint(1, 3) if macro else rng.choice((1, iso_naniso))
         if rng.random() < 0.4:
             naniso = 1
@@ -150,59 +163,49 @@ def _write_rates(grp, tru, labels, ngr, macro):
         if macro and (naniso > 1 or rng.random() < 0.4):
             info = info if info is not None else grp.create_group('info')
             info.create_group(rea)['nbAnisotropy'] = _i4(naniso)
-        pick = [('std', {'output': out, 'zone': zone, 'isotope': iso,
-                         'result_name': rea})]
+        labels = (out, zone, iso, rea.lower())
         if naniso > 1:
             tru.stats['aniso'] = True
-            tru.add('rate-aniso', arr, labels + (rea.lower(),), (naniso, ngr),
-                    [('anisotropies', np.arange(naniso))] + _groups(ngr), pick)
+            tru.add('rate-aniso', arr, labels, (naniso, ngr),
+                    [('anisotropies', np.arange(naniso))] + _groups(ngr),
+                    _std(out, zone, rea, iso))
         else:
-            tru.add('rate', arr, labels + (rea.lower(),), (ngr,),
-                    _groups(ngr), pick)
+            tru.add('rate', arr, labels, (ngr,), _groups(ngr),
+                    _std(out, zone, rea, iso))
     if not macro and (iso_naniso > 1 or rng.random() < 0.4):
         grp.create_group('info')['nbAnisotropy'] = _i4(iso_naniso)
 
 
 def _write_totaloutput(grp, tru, out, ngr):
-    rng = tru.rng
-    lab = (out, 'totaloutput', None)
-
-    def std(name):
-        return [('std', {'output': out, 'zone': 'totaloutput',
-                         'result_name': name})]
-    for name, prob in (('KEFF', 1.0), ('KINF', 0.5), ('MIGRATIONAREA', 0.2)):
-        if rng.random() < prob:
-            arr = tru.nums((1,), tru.fdt())
-            grp[name] = arr
-            tru.add('scalar', arr, lab + (name.lower(),), (), [], std(name))
-    for name in ('ABSORPTION', 'PRODUCTION', 'FLUX'):
-        if rng.random() < 0.7:
-            arr = tru.nums((ngr,), 'f4')
-            grp[name] = arr
-            tru.add('total-ng', arr, lab + (name.lower(),), (ngr,),
-                    _groups(ngr), std(name))
+    rng, zone = tru.rng, 'totaloutput'
+    nsurf, which = 0, None
     if rng.random() < 0.45:
-        nsurf = rng.randint(2, 4)
-        if tru.wish == 'nsurf1':
-            nsurf = 1
+        nsurf = 1 if tru.wish == 'nsurf1' else rng.randint(2, 4)
+        if nsurf == 1:
             tru.rare.add('nsurf1')
         tru.stats['surf'] = True
         grp['NSURF'] = _i4(nsurf)
         which = rng.choice(('SURFFLUX', 'CURRENT', 'both'))
-        bins = _groups(ngr) + [('surfaces', np.arange(nsurf))]
-        if which != 'CURRENT':
-            arr = tru.nums((ngr, nsurf), 'f4')
-            grp['SURFFLUX'] = arr
-            tru.add('surfflux', arr, lab + ('surfflux',), (ngr, nsurf), bins,
-                    std('SURFFLUX'))
-        if which != 'SURFFLUX':
-            arr = tru.nums((ngr, nsurf, 2), 'f4')
-            grp['CURRENT'] = arr
-            tru.add('current', arr, lab + ('current',), (ngr, nsurf, 2),
-                    bins + [('direction', np.array(['incoming', 'leaving']))],
-                    std('CURRENT'))
+    surf = _groups(ngr) + [('surfaces', np.arange(nsurf))]
+    direc = [('direction', np.array(['incoming', 'leaving']))]
+    for name, prob, kind, shape, bins in (
+            ('KEFF', 1.0, 'scalar', (), []), ('KINF', 0.5, 'scalar', (), []),
+            ('MIGRATIONAREA', 0.2, 'scalar', (), []),
+            ('ABSORPTION', 0.7, 'total-ng', (ngr,), _groups(ngr)),
+            ('PRODUCTION', 0.7, 'total-ng', (ngr,), _groups(ngr)),
+            ('FLUX', 0.7, 'total-ng', (ngr,), _groups(ngr)),
+            ('SURFFLUX', which in ('SURFFLUX', 'both'), 'surfflux',
+             (ngr, nsurf), surf),
+            ('CURRENT', which in ('CURRENT', 'both'), 'current',
+             (ngr, nsurf, 2), surf + direc)):
+        if rng.random() < prob:
+            arr = tru.nums(shape or (1,),
+                           tru.fdt() if kind == 'scalar' else 'f4')
+            grp[name] = arr
+            tru.add(kind, arr, (out, zone, None, name.lower()), shape, bins,
+                    _std(out, zone, name))
     if rng.random() < 0.5:
-        _write_locals(grp, tru, (out, 'totaloutput'), out, 'totaloutput')
+        _write_locals(grp, tru, out, zone)
 
 
 def _write_zone(grp, tru, out, zone, ngr):
@@ -214,8 +217,7 @@ def _write_zone(grp, tru, out, zone, ngr):
         arr = tru.nums((ngr,), 'f4')
         grp['FLUX'] = arr
         tru.add('zone-flux', arr, (out, zone, None, 'flux'), (ngr,),
-                _groups(ngr), [('std', {'output': out, 'zone': zone,
-                                        'result_name': 'FLUX'})])
+                _groups(ngr), _std(out, zone, 'FLUX'))
     if isos:
         grp['ISOTOPE'] = _pad(isos)
         conc = tru.nums((len(isos),), 'f8')
@@ -223,13 +225,10 @@ def _write_zone(grp, tru, out, zone, ngr):
         for i, iso in enumerate(isos):
             tru.add('concentration', conc[i:i + 1],
                     (out, zone, iso, 'concentration'), (), [],
-                    [('std', {'output': out, 'zone': zone, 'isotope': iso,
-                              'result_name': 'concentration'})])
-            _write_rates(grp.create_group(iso), tru, (out, zone, iso), ngr,
-                         False)
+                    _std(out, zone, 'concentration', iso))
+            _write_rates(grp.create_group(iso), tru, out, zone, iso, ngr)
     if rng.random() < 0.85:
-        _write_rates(grp.create_group('macro'), tru, (out, zone, 'macro'),
-                     ngr, True)
+        _write_rates(grp.create_group('macro'), tru, out, zone, 'macro', ngr)
 
 
 def _write_standard(hfile, tru):
@@ -269,14 +268,14 @@ def _write_standard(hfile, tru):
 
 
 def _write_user(hfile, tru):
+    '''The "user values" model: info without NOUT, local values in output.'''
     tru.stats['model'] = 'user'
     info = hfile.create_group('info')
     for key, val in (('COMMENT', b'Simplest_API'), ('FORMAT', b'Simple'),
                      ('VERSION', b'1.0')):
         if tru.rng.random() < 0.7:
             info[key] = np.array([val])
-    _write_locals(hfile.create_group('output'), tru, ('output', None),
-                  'output', None)
+    _write_locals(hfile.create_group('output'), tru, 'output', None)
 
 
 # --------------------------------------------------------------------------
@@ -294,6 +293,11 @@ def _labels(item):
             item.get('result_name'))
 
 
+def _show(arr, num=6):
+    arr = np.asarray(arr)
+    return f'{arr.ravel()[:num].tolist()} {arr.dtype} shape {arr.shape}'
+
+
 def _bins_repr(bins):
     return [(key, np.asarray(val).tolist()) for key, val in bins.items()]
 
@@ -302,67 +306,73 @@ def _ds_diffs(rds, pds):
     '''Aspects in which the picked dataset differs from the reader's one.'''
     out = []
     rval, pval = np.asarray(rds.value), np.asarray(pds.value)
-    flat = _bits(rval.ravel(), pval.ravel())
-    if not flat:
-        out.append(('value', f'{rval.ravel()[:6]!r} {rval.dtype} vs '
-                             f'{pval.ravel()[:6]!r} {pval.dtype}'))
+    if not _bits(rval.ravel(), pval.ravel()):
+        out.append(('value', f'{_show(rval)} vs {_show(pval)}'))
     elif rval.shape != pval.shape:
         out.append(('shape', f'{rval.shape} vs {pval.shape}'))
     rerr, perr = np.asarray(rds.error), np.asarray(pds.error)
     if not _bits(rerr.ravel(), perr.ravel()) or (
             rval.shape == pval.shape and rerr.shape != perr.shape):
-        out.append(('error', f'{rerr.ravel()[:4]!r} {rerr.dtype} {rerr.shape} '
-                             f'vs {perr.ravel()[:4]!r} {perr.dtype} '
-                             f'{perr.shape}'))
+        out.append(('error', f'{_show(rerr, 4)} vs {_show(perr, 4)}'))
     if list(rds.bins) != list(pds.bins) or not all(
             _bits(rds.bins[key], pds.bins[key]) for key in rds.bins):
         out.append(('bins', f'{_bins_repr(rds.bins)} vs '
                             f'{_bins_repr(pds.bins)}'))
-    if rds.what != pds.what:
-        out.append(('what', f'{rds.what!r} vs {pds.what!r}'))
-    if rds.name != pds.name:
-        out.append(('name', f'{rds.name!r} vs {pds.name!r}'))
+    out.extend((att, f'{getattr(rds, att)!r} vs {getattr(pds, att)!r}')
+               for att in ('what', 'name')
+               if getattr(rds, att) != getattr(pds, att))
     return out
 
 
-def _pick(picker, spec):
-    how, kwargs = spec
-    kwargs = {key: val for key, val in kwargs.items()
-              if not (key == 'isotope' and val is None)}
-    if how == 'std':
-        return picker.pick_standard_value(**kwargs)
-    if how == 'user':
-        return picker.pick_user_value(**kwargs)
-    return picker.pick_value_from_index(**kwargs)
-
-
 def _compare_picks(picker, rds, labels, picks, rec, case, counter, tag=''):
-    for spec in picks:
+    '''Every applicable Picker call against the reader's dataset.'''
+    for how, kwargs in picks:
         rec.count(counter)
+        func = {'std': picker.pick_standard_value,
+                'user': picker.pick_user_value,
+                'index': picker.pick_value_from_index}[how]
         try:
-            pds = _pick(picker, spec)
+            pds = func(**kwargs)
         except Exception as err:  # pylint: disable=broad-except
             rec.violation(f'ap3-picker-raised-{type(err).__name__}{tag}',
-                          f'{spec} for reader item {labels}: {err!r}', case)
+                          f'{how} {kwargs} for reader item {labels}: {err!r}',
+                          case)
             continue
         for aspect, detail in _ds_diffs(rds, pds):
+            if aspect == 'shape' and how == 'user' and \
+                    kwargs.get('zone') == 'localvalue' and \
+                    np.shape(rds.value) == () and \
+                    np.shape(pds.value) == (1,):
+                # the one mechanism recorded in known_findings.json: a
+                # one-element dataset of a 'localvalue' group
+                aspect = 'shape-scalar-vs-one-element-localvalue'
             rec.violation(f'ap3-picker-{aspect}-differs-from-reader',
-                          f'{labels} picked with {spec}: reader vs picker '
-                          f'{detail}', case)
+                          f'{labels} picked with {how} {kwargs}: reader vs '
+                          f'picker {detail}', case)
+
+
+def _check_error(dset, labels, errval, rec, case):
+    '''Error array: shape of the value, filled with the error value.'''
+    err, val = np.asarray(dset.error), np.asarray(dset.value)
+    good = np.isnan(err).all() if errval is None else (err == errval).all()
+    if err.shape != val.shape or not good:
+        rec.violation('ap3-error-wrong',
+                      f'{labels}: error_value={errval} but error is '
+                      f'{_show(err, 4)} for value of shape {val.shape}', case)
 
 
 def _check_truth_item(sto, item, errval, rec, case):
     '''One stored array against the browser item holding its numbers.'''
     dset = item['results']
-    labels = _labels(item)
-    if labels != sto['labels']:
+    if _labels(item) != sto['labels']:
         rec.violation('ap3-labels-wrong',
                       f'{sto["kind"]} stored under (output, zone, isotope, '
                       f'result_name)={sto["labels"]} is returned with labels '
-                      f'{labels} (first number {sto["arr"].ravel()[0]!r})',
-                      case)
+                      f'{_labels(item)} (first number '
+                      f'{sto["arr"].ravel()[0]!r})', case)
     val = np.asarray(dset.value)
     want = sto['arr'].reshape(sto['shape'])
+    # a (1,) dataset of the localvalue group: scalar or (1,) both accepted
     lenient = sto['kind'] == 'localvalue-group' and sto['arr'].shape == (1,)
     if not (_bits(val, want) or (lenient and _bits(val, want.reshape(())))):
         rec.violation('ap3-reader-value-differs',
@@ -370,12 +380,7 @@ def _check_truth_item(sto, item, errval, rec, case):
                       f'{want.tolist()} {want.dtype} shape {want.shape}, '
                       f'reader gives {val.tolist()} {val.dtype} shape '
                       f'{val.shape}', case)
-    err = np.asarray(dset.error)
-    good = np.isnan(err).all() if errval is None else (err == errval).all()
-    if err.shape != val.shape or not good:
-        rec.violation('ap3-error-wrong',
-                      f'{sto["labels"]}: error_value={errval} but error is '
-                      f'{err.tolist()} for value of shape {val.shape}', case)
+    _check_error(dset, sto['labels'], errval, rec, case)
     exp = sto['bins']
     if list(dset.bins) != [key for key, _ in exp] or not all(
             np.array_equal(np.asarray(dset.bins[key]), arr)
@@ -387,6 +392,8 @@ def _check_truth_item(sto, item, errval, rec, case):
 
 
 def _check_globals(browser, tru, rec, case):
+    '''info: geom_id, ngroups; geometry: zone name -> volume (both empty in
+    the user model).'''
     info = browser.globals.get('info')
     geom = browser.globals.get('geometry')
     try:
@@ -394,8 +401,8 @@ def _check_globals(browser, tru, rec, case):
                 and all(info[out]['geom_id'] == gid
                         and int(info[out]['ngroups']) == ngr
                         for out, (gid, ngr) in tru.info.items())
-                and all(list(geom[gid]) == [nam for nam, _ in zones]
-                        and all(_bits(geom[gid][nam], vol)
+                and all(set(geom[gid]) == {nam for nam, _ in zones}
+                        and all(float(geom[gid][nam]) == float(vol)
                                 for nam, vol in zones)
                         for gid, zones in tru.geom.items()))
     except (KeyError, TypeError, ValueError) as err:
@@ -407,37 +414,41 @@ def _check_globals(browser, tru, rec, case):
                       f'globals info {info!r} geometry {geom!r}', case)
 
 
-def _check_file(path, tru, errval, first, rec, case):
-    # pylint: disable=too-many-locals,too-many-branches
+def _open(path, errval, tag, msg, rec, case):
+    '''Browser and Picker of `path`, or None if the reader raises.'''
     from valjean.eponine.apollo3.hdf5_reader import Reader
     from valjean.eponine.apollo3.hdf5_picker import Picker
     kws = {} if errval is None else {'error_value': errval}
-    tag = tru.raretag()
     try:
-        browser = Reader(path, **kws).to_browser()
+        return Reader(path, **kws).to_browser(), Picker(path, **kws)
     except Exception as err:  # pylint: disable=broad-except
         rec.violation(f'ap3-reader-raised-{type(err).__name__}{tag}',
-                      f'Reader raised {err!r} on a file following the '
-                      f'documented layout: {tru.stats}, rare documented '
-                      f'features {sorted(tru.rare)}', case)
+                      f'Reader raised {err!r} on {msg}', case)
+        return None
+
+
+def _check_file(path, tru, errval, first, rec, case):
+    tag = tru.tag()
+    opened = _open(path, errval, tag, 'a file following the documented '
+                   f'layout: {tru.stats}, rare documented features '
+                   f'{sorted(tru.rare)}', rec, case)
+    if opened is None:
         return
+    browser, picker = opened
     num2id = {float(num): i for i, sto in enumerate(tru.items)
               for num in sto['arr'].ravel()}
     found = {}
     for item in browser.content:
-        if first:
-            rec.count('ap3_reader_items')
         val = np.asarray(item['results'].value)
         ids = ({num2id.get(float(num)) for num in val.ravel()}
                if val.dtype.kind == 'f' else {None})
         if len(ids) != 1 or None in ids:
             rec.violation(f'ap3-unexpected-item{tag}',
                           f'browser item {_labels(item)} holds numbers that '
-                          f'were not stored as one result: '
-                          f'{val.ravel()[:8].tolist()}', case)
+                          f'were not stored as one result: {_show(val, 8)}',
+                          case)
             continue
         found.setdefault(ids.pop(), []).append(item)
-    picker = Picker(path, **kws)
     try:
         for i, sto in enumerate(tru.items):
             items = found.get(i, [])
@@ -452,8 +463,6 @@ def _check_file(path, tru, errval, first, rec, case):
                 rec.violation('ap3-duplicate-item',
                               f'{sto["labels"]} found in {len(items)} items: '
                               f'{[_labels(it) for it in items]}', case)
-            if first:
-                rec.count('ap3_arrays_found')
             _check_truth_item(sto, items[0], errval, rec, case)
             _compare_picks(picker, items[0]['results'], sto['labels'],
                            sto['picks'], rec, case, 'ap3_picker_comparisons',
@@ -461,13 +470,15 @@ def _check_file(path, tru, errval, first, rec, case):
     finally:
         picker.close()
     if first:
+        rec.count('ap3_reader_items', len(browser.content))
+        rec.count('ap3_arrays_found', len(found))
         _check_globals(browser, tru, rec, case)
 
 
 def synthetic_case(seed, idx, tier, rec):
     '''Generate ONE random HDF5 file following the documented layout from a
     known ground truth, read it back with the Reader and every applicable
-    Picker call and compare with the ground truth.'''
+    Picker call (error value NaN, then 0) and compare with the ground truth.'''
     rng = core.rng_for(seed, 'C10', 'ap3', idx)
     case = {'mode': 'ap3', 'seed': seed, 'idx': idx, 'tier': tier}
     tru = _Truth(rng)
@@ -498,84 +509,67 @@ def synthetic_case(seed, idx, tier, rec):
 # --------------------------------------------------------------------------
 # shipped files
 
-def _walk_locals(grp, labels, pick_out, zone, out):
+def _walk_locals(grp, out, zone, res):
     if 'LOCALNAME' in grp and 'LOCALVALUE' in grp:
         vals = grp['LOCALVALUE'][...]
         for i, raw in enumerate(grp['LOCALNAME'][...]):
             nam = raw.decode('utf-8').strip()
-            out.append((labels + (None, nam), vals[i],
-                        [('user', {'output': pick_out, 'zone': zone,
-                                   'result_name': nam}),
-                         ('index', {'output': pick_out, 'zone': zone,
-                                    'result_index': i, 'name': nam})]))
-    if 'localvalue' in grp:
-        pout = pick_out if zone is None else f'{pick_out}/{zone}'
-        for nam, dat in grp['localvalue'].items():
-            if nam != 'LOCALNAME' and isinstance(dat, h5py.Dataset):
-                out.append((labels + (None, nam), dat[...],
-                            [('user', {'output': pout, 'zone': 'localvalue',
-                                       'result_name': nam})]))
+            res.append(((out, zone, None, nam), vals[i],
+                        _loc(out, zone, nam, i)))
+    for nam, dat in grp.get('localvalue', {}).items():
+        if nam != 'LOCALNAME' and isinstance(dat, h5py.Dataset):
+            res.append(((out, zone, None, nam), dat[...],
+                        _loc(out, zone, nam)))
 
 
-def _walk_zone(zgrp, oname, zname, out):
+def _walk_zone(zgrp, out, zone, res):
     for key, dat in zgrp.items():
         if key in ('NISOT', 'ISOTOPE'):
             continue
-        base = {'output': oname, 'zone': zname}
         if key == 'CONCEN':
             for raw, conc in zip(zgrp['ISOTOPE'][...], dat[...]):
                 iso = raw.decode('utf-8').strip()
-                out.append(((oname, zname, iso, 'concentration'), conc,
-                            [('std', dict(base, isotope=iso,
-                                          result_name='concentration'))]))
+                res.append(((out, zone, iso, 'concentration'), conc,
+                            _std(out, zone, 'concentration', iso)))
         elif isinstance(dat, h5py.Group):       # macro or an isotope
             for rkey, rdat in dat.items():
                 if isinstance(rdat, h5py.Dataset):
-                    out.append(((oname, zname, key, rkey.lower()), rdat[...],
-                                [('std', dict(base, isotope=key,
-                                              result_name=rkey))]))
+                    res.append(((out, zone, key, rkey.lower()), rdat[...],
+                                _std(out, zone, rkey, key)))
         else:
-            out.append(((oname, zname, None, key.lower()), dat[...],
-                        [('std', dict(base, result_name=key))]))
+            res.append(((out, zone, None, key.lower()), dat[...],
+                        _std(out, zone, key)))
 
 
 def _walk_expected(hfile):
     '''Datasets that the documented model calls results: list of (labels,
     stored array, picker calls).'''
-    out = []
-    if 'NOUT' not in hfile['info']:
-        for oname, ogrp in hfile.items():
-            if oname != 'info':
-                _walk_locals(ogrp, (oname, None), oname, None, out)
-        return out
-    for oname, ogrp in hfile.items():
-        if not oname.startswith('output_'):
+    res = []
+    standard = 'NOUT' in hfile['info']
+    for out, ogrp in hfile.items():
+        if not standard and out != 'info':
+            _walk_locals(ogrp, out, None, res)
+        if not standard or not out.startswith('output_'):
             continue
-        for zname, zgrp in ogrp.items():
-            if zname != 'totaloutput':
-                _walk_zone(zgrp, oname, zname, out)
+        for zone, zgrp in ogrp.items():
+            if zone != 'totaloutput':
+                _walk_zone(zgrp, out, zone, res)
                 continue
             for key, dat in zgrp.items():
                 if isinstance(dat, h5py.Dataset) and key not in NOT_RESULTS:
-                    out.append(((oname, zname, None, key.lower()), dat[...],
-                                [('std', {'output': oname, 'zone': zname,
-                                          'result_name': key})]))
-            _walk_locals(zgrp, (oname, zname), oname, zname, out)
-    return out
+                    res.append(((out, zone, None, key.lower()), dat[...],
+                                _std(out, zone, key)))
+            _walk_locals(zgrp, out, zone, res)
+    return res
 
 
 def _shipped_file(path, errval, rec, case):
-    from valjean.eponine.apollo3.hdf5_reader import Reader
-    from valjean.eponine.apollo3.hdf5_picker import Picker
-    kws = {} if errval is None else {'error_value': errval}
     with h5py.File(path, 'r') as hfile:
         expected = _walk_expected(hfile)
-    try:
-        browser = Reader(path, **kws).to_browser()
-    except Exception as err:  # pylint: disable=broad-except
-        rec.violation(f'ap3-reader-raised-{type(err).__name__}',
-                      f'Reader raised {err!r} on shipped file', case)
+    opened = _open(path, errval, '', 'shipped file', rec, case)
+    if opened is None:
         return
+    browser, picker = opened
     if len(browser.content) != len(expected):
         rec.violation('ap3-shipped-item-count-differs',
                       f'{len(browser.content)} browser items for '
@@ -584,12 +578,11 @@ def _shipped_file(path, errval, rec, case):
     for labels, arr, picks in expected:
         exp.setdefault(labels, []).append((arr, picks))
     seen = set()
-    picker = Picker(path, **kws)
     try:
         for item in browser.content:
             rec.count('ap3_shipped_items')
             labels = _labels(item)
-            if labels not in exp or len(exp[labels]) != 1 or labels in seen:
+            if len(exp.get(labels, [])) != 1 or labels in seen:
                 rec.violation('ap3-unexpected-item',
                               f'browser item {labels} corresponds to '
                               f'{len(exp.get(labels, []))} datasets of the '
@@ -598,20 +591,12 @@ def _shipped_file(path, errval, rec, case):
             seen.add(labels)
             arr, picks = exp[labels][0]
             dset = item['results']
-            val = np.asarray(dset.value)
-            if not _bits(val.ravel(), np.asarray(arr).ravel()):
+            if not _bits(np.asarray(dset.value).ravel(),
+                         np.asarray(arr).ravel()):
                 rec.violation('ap3-reader-value-differs',
-                              f'{labels}: h5py gives '
-                              f'{np.asarray(arr).ravel()[:6]!r}, reader '
-                              f'{val.ravel()[:6]!r}', case)
-            err = np.asarray(dset.error)
-            good = (np.isnan(err).all() if errval is None
-                    else (err == errval).all())
-            if err.shape != val.shape or not good:
-                rec.violation('ap3-error-wrong',
-                              f'{labels}: error_value={errval}, error '
-                              f'{err.ravel()[:4]!r} shape {err.shape} for '
-                              f'value shape {val.shape}', case)
+                              f'{labels}: h5py gives {_show(arr)}, reader '
+                              f'{_show(dset.value)}', case)
+            _check_error(dset, labels, errval, rec, case)
             _compare_picks(picker, dset, labels, picks, rec, case,
                            'ap3_shipped_picker_comparisons')
     finally:
@@ -623,7 +608,8 @@ def _shipped_file(path, errval, rec, case):
 
 
 def shipped_differential(rec):
-    '''Reader vs Picker vs plain h5py on the six shipped example files.'''
+    '''Reader vs Picker vs a plain h5py walk on the six shipped example
+    files, for every browser item, with error value NaN and 0.'''
     ddir = os.path.join(core.REPO, 'tests', 'eponine', 'apollo3', 'data')
     for fname in sorted(os.listdir(ddir)):
         if fname.endswith('.hdf'):
